@@ -33,6 +33,7 @@ type Model struct {
 	Stdout []string
 	Blocks []Block
 	Raw    *sx.Node
+	DumpWF bool // Pipeline.dump_wf_b on the dump: the hypothesis of the no-panic theorem
 }
 
 type Block struct {
@@ -58,6 +59,11 @@ func DecodeModel(n *sx.Node) Model {
 			case "stdout":
 				m.Stdout = append(m.Stdout, e.Arg(0).Str())
 			}
+		}
+	}
+	if len(n.List) > 0 {
+		if last := n.List[len(n.List)-1]; !last.IsAtom && last.Tag() == "wf" {
+			m.DumpWF = last.Arg(0).Str() == "1"
 		}
 	}
 	switch m.Kind {
@@ -140,6 +146,9 @@ type Diff struct {
 // Compare projects both sides and lists the disagreements. Unsup/decode errors are reported by the caller.
 func Compare(im Impl, m Model) []Diff {
 	var ds []Diff
+	if !m.DumpWF && m.Kind != "decode-error" {
+		ds = append(ds, Diff{"dump well-formedness (Pipeline.dump_wf_b, hypothesis of C14_no_panic)", "true for every dump the harness produces", "false"})
+	}
 	implClass := "ok"
 	switch {
 	case im.Panicked:
